@@ -1,6 +1,7 @@
 import TRV.Model.Drivers
 import TRV.Generated.LogicSack
 import TRV.Generated.LogicCommon
+import TRV.Proofs.BeNat
 /-!
 # Tie theorems: the SACK matcher model equals the decision tree REGENERATED from `sack/sack_driver.go`
 
@@ -263,6 +264,154 @@ theorem tie_sack_handle (s : SackSt) (hmax : s.cfg.max ≤ 255) (l3 : L3) (l4 : 
         · simp [LogicSack.handleProbeLayers.run, atoms, handle, isTE, infoOf, hte, hi, hp, interp_err, kind_nomatch]
     · simp [LogicSack.handleProbeLayers.run, atoms, handle, isTE, hte, interp_err, kind_nomatch]
 
+/-! ## `getMinSack`: one iteration of its block loop, regenerated, and the loops it drives -/
+
+theorem toNat_mod32 (x : Nat) : (((x : Nat) : Int) % 4294967296).toNat = x % 4294967296 := by omega
+
+
+/-- meaning of one iteration of `for data := opt.OptionData; len(data) >= 8; data = data[8:]`:
+    `none` = the loop ends; otherwise the remaining data, `foundSack` and the running minimum -/
+def stepSem (isn : Nat) (data : Bytes) (m : Nat) : Option (Bytes × Bool × Nat) :=
+  if data.length < 8 then none else
+  match u32 data 0 with
+  | some l =>
+    let rel := (l + 4294967296 - isn % 4294967296) % 4294967296
+    some (data.drop 8, true, Nat.min m rel)
+  | none => none
+
+/-- what the regenerated iteration returns, in those terms -/
+def interpStep (data : Bytes) (m : Nat) (r : R) : Option (Bytes × Bool × Nat) :=
+  if r.effects = ["loopExit()"] then none else
+  match r.get "foundSack'", r.get "data'" with
+  | some (V.bool f), some (V.ref t) =>
+    if t = "data[8:]" then
+      match r.get "minSack'" with
+      | some (V.int v) => some (data.drop 8, f, v.toNat)
+      | _ => some (data.drop 8, f, m)          -- not assigned on this path: unchanged
+    else none
+  | _, _ => none
+
+theorem u32_some_of_len {b : Bytes} (h : 4 ≤ b.length) : ∃ v, u32 b 0 = some v := by
+  obtain ⟨a, ha⟩ := Proofs.BeNat.u16_some_of_len (b := b) (k := 0) (by omega)
+  obtain ⟨c, hc⟩ := Proofs.BeNat.u16_some_of_len (b := b) (k := 2) (by omega)
+  exact ⟨a * 65536 + c, by simp [u32, ha, hc]⟩
+
+/-- one iteration of the SACK-block loop of `getMinSack` (regenerated) is `stepSem`: the loop needs 8
+    octets, reads the left edge as a big-endian 32-bit number at octet 0, makes it relative to the
+    initial sequence number in `uint32`, keeps the smaller of it and the running minimum, and moves on
+    by 8 octets -/
+theorem tie_getMinSack_step (isn : Nat) (data : Bytes) (m : Nat) :
+    interpStep data m (LogicSack.getMinSackStep.run { «data» := data, «localInitSeq» := isn, «minSack» := m })
+      = stepSem isn data m := by
+  unfold stepSem
+  by_cases hl : data.length < 8
+  · have hlI : ¬ (((data.length : Nat) : Int) ≥ 8) := by omega
+    simp [LogicSack.getMinSackStep.run, interpStep, hl, hlI]
+  · have hlI : ((data.length : Nat) : Int) ≥ 8 := by omega
+    obtain ⟨l, hu⟩ := u32_some_of_len (b := data) (by omega)
+    have e : Logic.be (data.take 4) 4 = l := by simpa using Proofs.BeNat.be32_of_u32 hu
+    have hm : (l % 4294967296 + 4294967296 - isn % 4294967296) % 4294967296
+        = (l + 4294967296 - isn % 4294967296) % 4294967296 := by omega
+    by_cases hlt : (l + 4294967296 - isn % 4294967296) % 4294967296 < m
+    · have : Nat.min m ((l + 4294967296 - isn % 4294967296) % 4294967296) = (l + 4294967296 - isn % 4294967296) % 4294967296 := by
+        simp [Nat.min_def]; omega
+      simp [LogicSack.getMinSackStep.run, interpStep, R.get, hl, hlI, hu, e, hm, hlt, this]
+      exact toNat_mod32 _
+    · have : Nat.min m ((l + 4294967296 - isn % 4294967296) % 4294967296) = m := by
+        simp [Nat.min_def]; omega
+      simp [LogicSack.getMinSackStep.run, interpStep, R.get, hl, hlI, hu, e, hm, hlt, this]
+
+/-- the block loop: iterate `stepSem` (fuel = an upper bound of the number of iterations) -/
+def innerLoop (isn : Nat) : Nat → Bytes → Bool × Nat → Bool × Nat
+  | 0, _, st => st
+  | fuel+1, data, st =>
+    match stepSem isn data st.2 with
+    | none => st
+    | some (d, f, m) => innerLoop isn fuel d (f, m)
+
+theorem innerLoop_eq (isn : Nat) : ∀ (fuel : Nat) (data : Bytes) (f : Bool) (m : Nat),
+    innerLoop isn fuel data (f, m)
+      = (f || !(sackEdges isn fuel data).isEmpty, (sackEdges isn fuel data).foldl Nat.min m) := by
+  intro fuel
+  induction fuel with
+  | zero => intro data f m; simp [innerLoop, sackEdges]
+  | succ n ih =>
+    intro data f m
+    unfold innerLoop sackEdges stepSem
+    by_cases hl : data.length < 8
+    · simp [hl]
+    · cases hu : u32 data 0 with
+      | none => simp [hl, hu]
+      | some l => simp [hl, hu, ih]
+
+/-- the option loop of `getMinSack`: `continue` unless the option is a SACK option (kind 5) -/
+def outerLoop (isn : Nat) (opts : List (Nat × Bytes)) (st : Bool × Nat) : Bool × Nat :=
+  opts.foldl (fun st o => if o.1 = 5 then innerLoop isn o.2.length o.2 st else st) st
+
+theorem outerLoop_eq (isn : Nat) : ∀ (opts : List (Nat × Bytes)) (f : Bool) (m : Nat),
+    outerLoop isn opts (f, m)
+      = (f || !((opts.filter (·.1 = 5)).flatMap (fun o => sackEdges isn o.2.length o.2)).isEmpty,
+         ((opts.filter (·.1 = 5)).flatMap (fun o => sackEdges isn o.2.length o.2)).foldl Nat.min m) := by
+  intro opts
+  induction opts with
+  | nil => intro f m; simp [outerLoop]
+  | cons o rest ih =>
+    intro f m
+    unfold outerLoop at ih ⊢
+    by_cases h5 : o.1 = 5
+    · simp only [List.foldl_cons, h5, if_true]
+      rw [innerLoop_eq, ih]
+      simp [List.filter_cons, h5, List.flatMap_cons, List.foldl_append, Bool.or_assoc]
+      cases sackEdges isn o.2.length o.2 <;> simp
+    · simp only [List.foldl_cons, h5, if_false]
+      rw [ih]
+      simp [List.filter_cons, h5]
+
+theorem sackEdges_lt (isn : Nat) : ∀ (fuel : Nat) (data : Bytes) (e : Nat), e ∈ sackEdges isn fuel data → e < 4294967296 := by
+  intro fuel
+  induction fuel with
+  | zero => intro data e h; simp [sackEdges] at h
+  | succ n ih =>
+    intro data e h
+    unfold sackEdges at h
+    by_cases hl : data.length < 8
+    · simp [hl] at h
+    · cases hu : u32 data 0 with
+      | none => simp [hl, hu] at h
+      | some l =>
+        simp [hl, hu] at h
+        rcases h with h | h
+        · omega
+        · exact ih _ _ h
+
+/-- `getMinSack` as the Go code computes it — both loops, starting from `MaxUint32` and `false`,
+    "no SACK options" when nothing was found — is the model's `minSack` -/
+theorem getMinSack_loops_eq_minSack (isn : Nat) (opts : List (Nat × Bytes)) :
+    (let st := outerLoop isn opts (false, 4294967295)
+     if st.1 then some st.2 else none) = minSack isn opts := by
+  rw [outerLoop_eq]
+  unfold minSack
+  generalize hE : (opts.filter (·.1 = 5)).flatMap (fun o => sackEdges isn o.2.length o.2) = edges
+  have hlt : ∀ e ∈ edges, e < 4294967296 := by
+    intro e he
+    rw [← hE] at he
+    simp only [List.mem_flatMap] at he
+    obtain ⟨o, _, ho⟩ := he
+    exact sackEdges_lt isn _ _ _ ho
+  cases edges with
+  | nil => simp
+  | cons e es =>
+    have : e < 4294967296 := hlt e (by simp)
+    have hmin : Nat.min 4294967295 e = e := by simp [Nat.min_def]; omega
+    simp [List.foldl_cons, hmin]
+
+#print axioms toNat_mod32
+#print axioms u32_some_of_len
+#print axioms tie_getMinSack_step
+#print axioms innerLoop_eq
+#print axioms outerLoop_eq
+#print axioms sackEdges_lt
+#print axioms getMinSack_loops_eq_minSack
 #print axioms sackRecv_eq_handle
 #print axioms kind_bad
 #print axioms kind_nomatch
